@@ -20,33 +20,37 @@ def actor_semantics(rep, ctx):
     body = cands[0]
     rep.functions_encoded.append(body)
     sem = {}
-    ps = p_c11.explore_actor_arm(ctx, body, "ProvisionAction", "UpdateState")
-    ops = set()
-    for r in ps:
-        for e in r.events:
-            if e.kind == "call" and re.search(r"ProvisionFlags as (\w+)>::(\w+)$", e.callee):
-                ops.add(e.callee.split("::")[-1])
-        rc = [e for e in r.events if e.kind == "await" and e.callee.endswith("recv")]
-        msg = rc[0].ret.child(("v", "Some", 0))
-        bo = [e for e in r.events if e.kind == "call" and e.callee.endswith("bitor_assign")]
-        sd = [e for e in r.events if e.kind == "call" and e.callee.endswith("Sender::send")]
-        ok = len(bo) == 1 and is_part_of(bo[0].rargs[1], msg) and len(sd) == 1 and origin(sd[0].rargs[1]) is origin(bo[0].rargs[0]) and r.events.index(bo[0]) < r.events.index(sd[0])
-        rep.add(Query("actor UpdateState: flags |= reported flag, and the reply is the flags AFTER the update (one atomic message)", "holds" if ok and ops == {"bitor_assign"} else "violated",
-                      "operators %s" % sorted(ops), 0, "mirsym", key="C16.actor.update", reproduced=None))
-        sem["update"] = "or" if ok and ops == {"bitor_assign"} else None
-        break
-    ps = p_c11.explore_actor_arm(ctx, body, "ProvisionAction", "ResetState")
-    for r in ps:
-        rc = [e for e in r.events if e.kind == "await" and e.callee.endswith("recv")]
-        msg = rc[0].ret.child(("v", "Some", 0))
-        nt = [e for e in r.events if e.kind == "call" and e.callee.endswith("as Not>::not")]
-        ba = [e for e in r.events if e.kind == "call" and e.callee.endswith("bitand_assign")]
-        sd = [e for e in r.events if e.kind == "call" and e.callee.endswith("Sender::send")]
-        other = [e.callee for e in r.events if e.kind == "call" and re.search(r"ProvisionFlags as (\w+)>::(\w+)$", e.callee) and not re.search(r"(::not|bitand_assign)$", e.callee)]
-        ok = len(nt) == 1 and len(ba) == 1 and is_part_of(nt[0].rargs[0], msg) and ba[0].rargs[1] is nt[0].ret and len(sd) == 1 and origin(sd[0].rargs[1]) is origin(ba[0].rargs[0]) and not other
-        rep.add(Query("actor ResetState: flags &= !flag, reply is the flags after the reset", "holds" if ok else "violated", "", 0, "mirsym", key="C16.actor.reset", reproduced=None))
-        sem["reset"] = "andnot" if ok else None
-        break
+    OPS = {"bitor_assign": "or", "insert": "or", "bitxor_assign": "xor", "toggle": "xor", "remove": "andnot", "bitand_assign": "and"}
+
+    def arm_op(variant):
+        """(operator applied to the flags with the message's flag, reply is the post-state) read from the arm's events"""
+        ps = p_c11.explore_actor_arm(ctx, body, "ProvisionAction", variant)
+        for r in ps:
+            rc = [e for e in r.events if e.kind == "await" and e.callee.endswith("recv")]
+            msg = rc[0].ret.child(("v", "Some", 0))
+            fl = [e for e in r.events if e.kind == "call" and re.search(r"(ProvisionFlags as \w+>::\w+|provision::_::\w+|ProvisionFlags::\w+)$", e.callee) and not re.search(r"(clone|fmt|bits|contains)$", e.callee)]
+            sd = [e for e in r.events if e.kind == "call" and e.callee.endswith("Sender::send")]
+            nots = [e for e in fl if e.callee.endswith("::not")]
+            muts = [e for e in fl if not e.callee.endswith("::not")]
+            if len(muts) != 1 or len(sd) != 1:
+                return None, False
+            m_ = muts[0]
+            name = m_.callee.split("::")[-1]
+            op = OPS.get(name)
+            arg = m_.rargs[1]
+            if op == "and":
+                op = "andnot" if (len(nots) == 1 and arg is nots[0].ret and is_part_of(nots[0].rargs[0], msg)) else None
+            elif op is not None:
+                if not is_part_of(arg, msg):
+                    op = None
+            reply_post = origin(sd[0].rargs[1]) is origin(m_.rargs[0]) and r.events.index(m_) < r.events.index(sd[0])
+            return op, reply_post
+        return None, False
+    for variant, key, label in (("UpdateState", "update", "UpdateState"), ("ResetState", "reset", "ResetState")):
+        op, post = arm_op(variant)
+        sem[key] = op if post else None
+        rep.add(Query("actor %s: the flags are combined with the message's flag by a recognised operator (%s) and the reply is the flags AFTER the update, in one message" % (label, op),
+                      "holds" if op and post else "inconclusive", "", 0, "mirsym", key="C16.actor." + key))
     ps = p_c11.explore_actor_arm(ctx, body, "ProvisionAction", "SetProvisionFinished")
     seen_true = seen_false = False
     okf = True
@@ -277,7 +281,7 @@ mod verif_replay_c16 {
 
 def schedule_search(rep, sem, seqs, tier):
     """All interleavings of 3 reporters, 1 key-latch reset, the deadline handler and 1 query, on the actor semantics read above."""
-    if not (sem.get("update") == "or" and sem.get("reset") == "andnot" and sem.get("finished") and seqs.get("reset_ok") and seqs.get("deadline_ok")):
+    if not (sem.get("update") and sem.get("reset") and sem.get("finished") and seqs.get("reset_ok") and seqs.get("deadline_ok")):
         rep.add(Query("schedule search preconditions (actor/task semantics recognised)", "inconclusive", "%s %s" % (sem, seqs), 0, "z3", key="C16.schedules"))
         return
     uses_reply = seqs.get("reporter_uses_reply")
@@ -314,12 +318,12 @@ def schedule_search(rep, sem, seqs, tier):
         for i, m in enumerate(msgs):
             here = pos[i] == k
             kind = m[2]
-            if kind == "update":
-                nf = z3.If(here, flags[k] | m[3], nf)
-                s.add(z3.Implies(here, reply[i] == (flags[k] | m[3])))
-            elif kind == "reset":
-                nf = z3.If(here, flags[k] & ~z3.BitVecVal(m[3], 8), nf)
-                s.add(z3.Implies(here, reply[i] == (flags[k] & ~z3.BitVecVal(m[3], 8))))
+            if kind in ("update", "reset"):
+                op = sem["update"] if kind == "update" else sem["reset"]
+                f_ = z3.BitVecVal(m[3], 8)
+                post = {"or": flags[k] | f_, "andnot": flags[k] & ~f_, "xor": flags[k] ^ f_}[op]
+                nf = z3.If(here, post, nf)
+                s.add(z3.Implies(here, reply[i] == post))
             elif kind in ("getstate", "getstate_dl"):
                 s.add(z3.Implies(here, reply[i] == flags[k]))
             elif kind == "setfin_rep":
@@ -343,22 +347,72 @@ def schedule_search(rep, sem, seqs, tier):
     s.add(qt >= 1)                                 # a query that names a real instant
     seen = z3.Int("q_tick_seen")
     finished = seen >= qt                           # not latched
-    justified = z3.Or([z3.And(pos[qi] > k, z3.Or(allready[k], dlfired[k])) for k in range(N)])
+    # "all three have reported ready": each reporter's UpdateState message was processed before the query's read
+    upd = [j for j, x in enumerate(msgs) if x[2] == "update"]
+    reported = z3.And([pos[j] < pos[qi] for j in upd])
+    justified = z3.Or(reported, z3.Or([z3.And(pos[qi] > k, dlfired[k]) for k in range(N)]))
     s.add(finished, z3.Not(justified))
     t0 = time.time()
     r = s.check()
     dt = time.time() - t0
-    name = "all interleavings of 3 readiness reports, 1 key-latch reset, the deadline handler and 1 query (%d messages): finished => all three flags were set, or the deadline fired, before the query's read" % N
+    name = "all interleavings of 3 readiness reports, 1 key-latch reset, the deadline handler and 1 query (%d messages): finished => all three subsystems had reported ready, or the deadline fired, before the query's read" % N
     if r == z3.unsat:
         rep.add(Query(name, "holds", "", dt, "z3", key="C16.schedules"))
     elif r == z3.sat:
         m = s.model()
         order = sorted([(m.eval(pos[i]).as_long(), "%s.%s" % (msgs[i][0], msgs[i][2])) for i in range(N)])
-        rep.add(Query(name, "violated", "schedule %s" % [x[1] for x in order], dt, "z3", key="C16.schedules", model={"schedule": [x[1] for x in order]}, reproduced=None,
-                      replay=save_replay("C16", "schedule.json", json.dumps([x[1] for x in order], indent=1))))
+        sched = [x[1] for x in order]
+        st, path = replay_schedule(sched)
+        if st == "FAILED":
+            rep.traces_validated += 1
+        rep.add(Query(name, "violated" if st in ("FAILED", "ok") else "inconclusive", "schedule %s; replayed message by message on the real provision actor: %s" % (sched, st), dt, "z3", key="C16.schedules",
+                      model={"schedule": sched}, replay=path, reproduced=True if st == "FAILED" else (False if st == "ok" else None)))
     else:
         rep.add(Query(name, "inconclusive", "z3: %s" % r, dt, "z3", key="C16.schedules"))
     rep.bounds["schedules"] = "%d actor messages: 3 reporters, 1 reset, 1 deadline, 1 query; every total order respecting each task's program order" % N
+
+
+def replay_schedule(sched):
+    """Execute the solver's schedule message by message on the real actor (each step is one actor round-trip of the real wrapper)."""
+    import replay as rp
+    lines = []
+    flag = {"rep0": "REDIRECTOR_READY", "rep1": "KEY_LATCH_READY", "rep2": "LISTENER_READY"}
+    for m in sched:
+        t, k = m.split(".")
+        if k == "update":
+            lines.append("let r_%s = st.update_one_state(ProvisionFlags::%s).await.unwrap(); reported += 1;" % (t, flag[t]))
+        elif k == "getstate":
+            lines.append("let r_%s = st.get_state().await.unwrap();" % t)
+        elif k == "setfin_rep":
+            lines.append("if r_%s.contains(ProvisionFlags::ALL_READY) { st.set_provision_finished(true).await.unwrap(); }" % t)
+        elif k == "reset":
+            lines.append("let r_reset = st.reset_one_state(ProvisionFlags::KEY_LATCH_READY).await.unwrap();")
+        elif k == "setfin_reset":
+            lines.append("st.set_provision_finished(r_reset.contains(ProvisionFlags::ALL_READY)).await.unwrap();")
+        elif k == "getstate_dl":
+            lines.append("let r_dl = st.get_state().await.unwrap();")
+        elif k == "setfin_dl":
+            lines.append("if !r_dl.contains(ProvisionFlags::ALL_READY) { st.set_provision_finished(true).await.unwrap(); deadline = true; }")
+        elif k == "getfin":
+            lines.append("let tick = st.get_provision_finished().await.unwrap(); let finished = tick != 0 && tick >= 1; "
+                         "assert!(!finished || reported == 3 || deadline, \"finished reported with only {} of 3 subsystems having reported ready and no deadline\", reported);")
+    code = """
+#[cfg(test)]
+mod verif_replay_c16_schedule {
+    use crate::provision::ProvisionFlags;
+    use crate::shared_state::provision_wrapper::ProvisionSharedState;
+    #[tokio::test(flavor = "current_thread")]
+    async fn c16_schedule() {
+        let st = ProvisionSharedState::start_new();
+        let mut reported = 0; let mut deadline = false;
+        let _ = (&mut reported, &mut deadline);
+        %s
+    }
+}
+""" % "\n        ".join(lines)
+    res, out = rp.run_rust_tests("azure-proxy-agent", [("proxy_agent/src/provision.rs", code)], "verif_replay_c16_schedule")
+    path = save_replay("C16", "schedule_replay.rs", "// append to proxy_agent/src/provision.rs; cargo test -p azure-proxy-agent verif_replay_c16_schedule\n" + code)
+    return (res or {}).get("c16_schedule"), path
 
 
 def check(rep, tier, seed):
